@@ -112,3 +112,48 @@ Example same_shape_example :
   same_shape (PNode false s_k s_k [] [(KStr s_k_i, PLeaf LStr s_k s_k s_k_i s_k_i s_k_i)])
              (PNode false s_i s_i s_k [(KStr s_k_i, PLeaf LStr s_i s_i [65; 66; 67; 68] s_k s_i)]).
 Proof. repeat constructor. Qed.
+
+(* ------------------------------------------------------------------------------------------ *)
+(* documents that keep growing: several renderings written into one Html object                  *)
+Lemma render_list_app : forall a b, render_list (a ++ b) = render_list a ++ render_list b.
+Proof. intros; unfold render_list; apply flat_map_app. Qed.
+
+Lemma document_is_multi : forall o v, document o v = multi_document [(o, v)].
+Proof.
+  intros o v. unfold document, head_of, multi_document, doc_node, multi_styles, styles_of.
+  cbn [flat_map map fst snd app]. now rewrite app_nil_r.
+Qed.
+
+Theorem doc_node_names_ok : forall ids kids, forallb names_okb kids = true -> names_ok (doc_node ids kids).
+Proof.
+  intros ids kids H. unfold names_ok, doc_node. cbn [names_okb forallb].
+  change (is_raw_tag s_style_tag) with true. rewrite style_body_no_lt.
+  rewrite forallb_app, H. reflexivity.
+Qed.
+
+Theorem multi_document_well_formed : forall l, parse_html (render (multi_document l)) = Some (normalize [multi_document l]).
+Proof.
+  intros l. apply render_parse. apply doc_node_names_ok.
+  apply forallb_forall. intros x Hx. apply in_map_iff in Hx. destruct Hx as ([o v] & <- & _). apply tree_view_names_ok.
+Qed.
+
+(* the body of the grown document is the concatenation of the renderings, in writing order; its texts are those of the renderings *)
+Theorem multi_document_body : forall l,
+  exists pre post, render (multi_document l) = pre ++ render_list (map (fun ov => tree_view (fst ov) (snd ov)) l) ++ post.
+Proof.
+  intros l. unfold multi_document, doc_node.
+  set (kids := map _ l). set (H := El s_head _ _ _). set (T := Txt [c_nl]).
+  exists (open_tag s_html [] [] ++ render T ++ render H ++ render T ++ open_tag s_body [] [] ++ render T).
+  exists (render T ++ close_tag s_body ++ render T ++ close_tag s_html).
+  change (render (El s_html [] [] [T; H; T; El s_body [] [] (T :: kids ++ [T]); T]))
+    with (open_tag s_html [] [] ++ (render T ++ render H ++ render T ++ (open_tag s_body [] [] ++ (render T ++ flat_map render (kids ++ [T])) ++ close_tag s_body) ++ render T ++ []) ++ close_tag s_html).
+  rewrite flat_map_app. cbn [flat_map]. unfold render_list. rewrite !app_nil_r. rewrite <- !app_assoc. reflexivity.
+Qed.
+
+Theorem multi_document_texts : forall l,
+  texts_of (multi_document l)
+  = [[c_nl]; [c_nl]; [c_nl]; [c_nl]; [c_nl]] ++ flat_map (fun ov => texts_of (tree_view (fst ov) (snd ov))) l ++ [[c_nl]; [c_nl]].
+Proof.
+  intros l. unfold multi_document, doc_node. cbn [texts_of flat_map app]. rewrite ?app_nil_r, flat_map_app. cbn [flat_map texts_of app].
+  rewrite flat_map_concat_map, map_map, <- flat_map_concat_map. now rewrite <- !app_assoc.
+Qed.
